@@ -1,4 +1,7 @@
 //! C08 — undo restores the document and redo the edit, for every edit history (model-based).
+//!
+//! Replaying a case by hand: `C08_TRACE=1 c08 --replay <file>` prints every layer after each operation and each undo /
+//! redo step of one plain round before the verdict.
 mod check;
 mod model;
 mod ops;
@@ -19,7 +22,11 @@ fn cases(avoid: Vec<String>, flip_w: u32) -> BoxedStrategy<Case> {
         .boxed()
 }
 
-fn enumerated_case(i: u64, r: u64, per_doc: u64, alpha: &[Op]) -> Case {
+/// Histories over the reduced alphabet `alpha` (r operations): all of length 1 and 2, and (thorough) all of length 3 over
+/// `alpha3` (the same alphabet without flip_x / flip_y, which cost 25-90 ms per call).
+fn enumerated_case(i: u64, per_doc: u64, alpha: &[Op], alpha3: &[Op]) -> Case {
+    let r = alpha.len() as u64;
+    let r3 = alpha3.len() as u64;
     let doc = fixed_doc((i / per_doc) as u8);
     let mut j = i % per_doc;
     let mut ops = Vec::new();
@@ -31,81 +38,44 @@ fn enumerated_case(i: u64, r: u64, per_doc: u64, alpha: &[Op]) -> Case {
         ops.push(alpha[(j % r) as usize].clone());
     } else {
         j -= r + r * r;
-        ops.push(alpha[(j / (r * r)) as usize].clone());
-        ops.push(alpha[((j / r) % r) as usize].clone());
-        ops.push(alpha[(j % r) as usize].clone());
+        ops.push(alpha3[(j / (r3 * r3)) as usize].clone());
+        ops.push(alpha3[((j / r3) % r3) as usize].clone());
+        ops.push(alpha3[(j % r3) as usize].clone());
     }
     Case { doc, ops, walk: vec![0x8000], k: 0, extra: Op::SetChar { x: 0, y: 0, c: CellM::plain(b'n', 15, 1) }, stepwise: false }
 }
 
-fn bench() {
-    use std::time::Instant;
-    let d = fixed_doc(1);
-    let t = Instant::now();
-    for _ in 0..1000 { std::hint::black_box(d.build()); }
-    println!("build: {:?}/iter", t.elapsed() / 1000);
-    let st = d.build();
-    let t = Instant::now();
-    for _ in 0..1000 { std::hint::black_box(snapshot::take(icy_engine::editor::EditState::get_buffer(&st))); }
-    println!("snapshot: {:?}/iter", t.elapsed() / 1000);
-    let t = Instant::now();
-    for _ in 0..1000 { std::hint::black_box(icy_engine::Buffer::new((14, 9))); }
-    println!("Buffer::new: {:?}/iter", t.elapsed() / 1000);
-    let t = Instant::now();
-    for _ in 0..1000 { std::hint::black_box(icy_engine::Layer::new("x", (14, 9))); }
-    println!("Layer::new: {:?}/iter", t.elapsed() / 1000);
-    use icyv::proptest::strategy::ValueTree;
-    use icyv::proptest::test_runner::TestRunner;
-    let mut runner = TestRunner::deterministic();
-    let strat = cases(Vec::new(), 0);
-    let cs: Vec<Case> = (0..3000).map(|_| strat.new_tree(&mut runner).unwrap().current()).collect();
-    let t = Instant::now();
-    for c in &cs { std::hint::black_box(c.doc.build()); }
-    println!("random build: {:?}/case", t.elapsed() / 3000);
-    let sts: Vec<_> = cs.iter().map(|c| c.doc.build()).collect();
-    let t = Instant::now();
-    for st in &sts { std::hint::black_box(snapshot::take(st.get_buffer())); }
-    println!("random snapshot: {:?}/case", t.elapsed() / 3000);
-    let t = Instant::now();
-    let mut fails = 0;
-    let mut tf = std::time::Duration::ZERO;
-    for c in &cs {
-        let t1 = Instant::now();
-        let v = check(c);
-        if matches!(v, icyv::Verdict::Fail { .. }) { fails += 1; tf += t1.elapsed(); }
-    }
-    println!("random check: {:?}/case, {} fails costing {:?} each", t.elapsed() / 3000, fails, tf / fails.max(1));
-    let n: usize = cs.iter().map(|c| c.ops.len()).sum();
-    println!("mean len {}", n as f64 / 3000.0);
-}
-
 fn main() {
-    if std::env::var("C08_BENCH").is_ok() { bench(); return; }
     let mut eng = Engine::new("C08");
     eng.rule(
         "A case = (initial document model, history = Vec<Op>, walk, k, extra, stepwise). Documents: 12x8..30x20, 1..=3 layers (alpha, offset incl. negative, hidden, locked, \
-         position/alpha locked, Chars/Attributes mode, paste/image roles, preview offset, trimmed row storage), sparse cells (CP437 blocks/lines, invisible, blink, transparent colour, \
-         font pages 0..2), ice/palette/font modes, custom palettes, extra font pages, optional SAUCE, optional selection and selection mask (installed through the API, so the undo stack \
-         is not empty at the start), caret, current layer, mirror mode. Op = enum over the public editing entry points of EditState (76 kinds incl. nested atomic groups), layer \
-         arguments mapped monotonically onto the layers existing at that moment plus out-of-range boundary values, positions/sizes in range and at the boundary (-1, 0, size, size+1). \
-         exhaustive_short: every history of length <= 2 (quick) / <= 3 (thorough) over a reduced alphabet of 94 concrete operations on 2 fixed documents; histories / bulk: random \
-         histories of length 1..=40 (mean 7). A history ends before the first operation that returns Err or panics (re-run on a fresh editor without it; counted in the classes \
-         ended_err|Kind / ended_panic|Kind). Oracle on the remaining operations: undo exactly undo_stack_len() growth steps -> observational snapshot equals the initial one; redo them \
-         -> equals the post-history one; then visit generated operation boundaries by undo/redo steps and compare with the snapshot recorded there (stepwise cases instead run the \
-         undo-all/redo-all round after every operation); every undo()/redo() must return Ok without panicking and leave the expected stack length; finally undo k steps, run one more \
-         edit: if it registered an undo step, can_redo() must be false. Failure key = <class>|culprit=<kind of the last operation of the shortest failing prefix> (prefixes re-executed). \
+         position/alpha locked, Chars/Attributes mode, paste/image roles, rows allocated fully or only as far as content reaches), sparse cells (CP437 blocks/lines, invisible, blink, \
+         transparent colour, colours beyond the palette, font pages 0..2), ice/palette/font modes, custom palettes, extra font pages, optional SAUCE, optional selection and selection \
+         mask (installed through the API, so the undo stack is not empty at the start), caret, current layer, mirror mode. Op = enum over the public editing entry points of EditState \
+         (73 kinds incl. nested atomic groups opened/closed by BeginAtomic/EndAtomic markers); layer arguments are mapped monotonically onto the layers existing at that moment (raise: \
+         all but the top one, lower / merge down: all but the bottom one) plus out-of-range boundary values; positions and sizes in range and at the boundary (-1, 0, size, size+1). \
+         exhaustive_short: every history of length <= 2 (quick) over a reduced alphabet of 94 concrete operations on 2 fixed documents, thorough adds every history of length 3 over \
+         the same alphabet without the two flips (92 operations); histories / bulk / flip_histories: random histories of length 1..=40 (mean 7; flip_histories 1..=6 with flip_x/flip_y, \
+         which are excluded elsewhere because each call costs 25-90 ms). A history ends before the first operation that returns Err or panics (it is re-run on a fresh editor without \
+         that operation; counted in the classes ended_err|Kind / ended_panic|Kind). Oracle on the remaining operations: undo exactly undo_stack_len() growth steps -> observational \
+         snapshot equals the initial one; redo them -> equals the post-history one; then visit generated operation boundaries by undo/redo steps and compare with the snapshot recorded \
+         there during execution (stepwise cases instead run the undo-all/redo-all round after every operation and twice at the end); every undo()/redo() must return Ok without \
+         panicking and leave the expected stack length; finally undo k steps and run one more edit: if it registered an undo step, can_redo() must be false. Failure key = \
+         <class>|culprit=<OpKind>: prefixes of the history are re-executed on fresh editors (down and up all operation boundaries, twice); the shortest failing prefix gives the class; \
+         culprit = its last operation for *_mismatch classes, the operation that pushed the failing step for *_err / *_panic; for redo_not_cleared the culprit is the new edit. \
          Non-trivial: the history changed the snapshot AND (two operations worked on the same layer index OR a layer add/remove/reorder/merge/paste/crop was followed by a cell edit). \
          Distinct by case hash.",
     );
-    eng.assume("the snapshot reads the document only through public accessors (get_char on every cell inside each layer's size incl. font page, sizes, offsets, Properties, role, transparency, default font page, palette RGB, font table, SAUCE fields, buffer size and modes); caret, selection, current layer and dirty flags are not part of the document state named by the statement");
+    eng.assume("the snapshot reads the document only through public accessors (get_char on every cell inside each layer's size, sizes, offsets, Properties, role, transparency, default font page, palette RGB, font table, SAUCE fields, buffer size and modes); caret, selection, current layer, preview offset and dirty flags are not part of the document state named by the statement; the font page of an invisible cell is not compared (the engine pads rows with font-page-0 invisibles whatever the layer's default page is)");
     eng.assume("SAUCE records handed to update_sauce_data carry the current buffer size (Buffer::set_size keeps sauce.buffer_size in step, so a record with a foreign size is outside the editor's own invariant)");
     eng.assume("release profile semantics (overflow-checks off, debug-assertions off); an operation that panics or returns Err ends the history and is not a C08 violation");
 
-    // culprit operations confirmed as open known findings are removed from the alphabet of the bulk part (ids c08.culprit.<Kind>[.<class>])
+    // culprit operations confirmed as open known findings are removed from the alphabet of the bulk part
+    // (finding ids c08.culprit.<Kind> or c08.culprit.<Kind>.<class>)
     let mut avoid: Vec<String> = Vec::new();
     let mut total_w = 0u32;
     let mut avoided_w = 0u32;
-    for (w, kind, _) in alphabet(1) {
+    for (w, kind, _) in alphabet(0) {
         total_w += w;
         let hit = eng.finding_open(&format!("c08.culprit.{kind}")) || CLASSES.iter().any(|c| eng.finding_open(&format!("c08.culprit.{kind}.{c}")));
         if hit {
@@ -121,15 +91,17 @@ fn main() {
     eng.extra("alphabet_kinds", json!(alphabet(1).iter().map(|(_, k, _)| *k).collect::<Vec<_>>()));
 
     let alpha = reduced_alphabet();
-    let r = alpha.len() as u64;
-    let per_doc = if eng.is_thorough() { r + r * r + r * r * r } else { r + r * r };
-    eng.enumerated(PartCfg::new("exhaustive_short", 0, 0).exhaustive(true), 2 * per_doc, move |i| enumerated_case(i, r, per_doc, &alpha), check);
+    let alpha3: Vec<Op> = alpha.iter().filter(|o| !matches!(o, Op::FlipX | Op::FlipY)).cloned().collect();
+    let (r, r3) = (alpha.len() as u64, alpha3.len() as u64);
+    let per_doc = if eng.is_thorough() { r + r * r + r3 * r3 * r3 } else { r + r * r };
+    eng.extra("reduced_alphabet", json!({"operations": r, "operations_in_length_3_histories": r3, "documents": 2, "max_length": if eng.is_thorough() { 3 } else { 2 }}));
+    eng.enumerated(PartCfg::new("exhaustive_short", 0, 0).exhaustive(true), 2 * per_doc, move |i| enumerated_case(i, per_doc, &alpha, &alpha3), check);
 
-    eng.generated_min(PartCfg::new("histories", 60_000, 1_000_000).shrink_budget(1200), || cases(Vec::new(), 0), check, |_| "-".to_string(), minimize);
+    eng.generated_min(PartCfg::new("histories", 60_000, 600_000).shrink_budget(1200), || cases(Vec::new(), 0), check, |_| "-".to_string(), minimize);
     let av = avoid.clone();
-    eng.generated_min(PartCfg::new("bulk", 240_000, 4_000_000).shrink_budget(1200), move || cases(av.clone(), 0), check, |_| "-".to_string(), minimize);
+    eng.generated_min(PartCfg::new("bulk", 240_000, 3_000_000).shrink_budget(1200), move || cases(av.clone(), 0), check, |_| "-".to_string(), minimize);
     // flip_x / flip_y rebuild the glyph flip tables of every font on each call (25-90 ms): own, smaller part
     let av = avoid.clone();
-    eng.generated_min(PartCfg::new("flip_histories", 1_200, 30_000).shrink_budget(100), move || cases(av.clone(), 25), check, |_| "-".to_string(), minimize);
+    eng.generated_min(PartCfg::new("flip_histories", 1_200, 20_000).shrink_budget(100), move || cases(av.clone(), 25), check, |_| "-".to_string(), minimize);
     eng.run();
 }
